@@ -14,6 +14,7 @@ import (
 	"github.com/basecomplextech/baselibrary/bin"
 	"github.com/basecomplextech/baselibrary/logging"
 	"github.com/basecomplextech/baselibrary/status"
+	"github.com/basecomplextech/spec/internal/verifpoint"
 	"github.com/basecomplextech/spec/proto/pmpx"
 )
 
@@ -302,6 +303,7 @@ func (c *conn) close() {
 	c.ctx.Cancel()
 	c.conn.Close()
 	c.closed.Set()
+	verifpoint.Point("conn.closed", verifpoint.Ptr(c), verifpoint.B(c.client), 0)
 	c.writeq.Close()
 }
 
@@ -317,6 +319,7 @@ func (c *conn) closeChannels() {
 		return
 	}
 	c.channelsClosed.Store(true)
+	verifpoint.Point("conn.closeChannels", verifpoint.Ptr(c), int64(c.channels.Len()), 0)
 
 	c.channels.Range(func(_ bin.Bin128, ch internalChannel) bool {
 		ch.free()
@@ -349,6 +352,7 @@ func (c *conn) createChannel() (Channel, bool, status.Status) {
 
 	// Add channel
 	c.channels.Set(id, ch)
+	verifpoint.Point("conn.createChannel.added", verifpoint.Ptr(ch), 0, 0)
 	c.maybeChannelsReached()
 
 	// Check again
@@ -420,6 +424,7 @@ func (c *conn) addClosed(fn func()) int64 {
 	// Add listener
 	id := c.closedListenerSeq.Add(1)
 	c.closedListeners.Set(id, fn)
+	verifpoint.Point("conn.listener.added", verifpoint.Ptr(c), id, 0)
 
 	// Check again if closed
 	if c.closed.IsSet() {
